@@ -1,5 +1,6 @@
 import ParryModel.Field
 import ParryModel.C08.DfsLemmas
+import ParryModel.C08.OnceLemmas
 import ParryModel.C08.FieldLemmas
 import ParryModel.C08.Theorems6
 /-!
@@ -211,6 +212,153 @@ theorem dfs_exit_early_stops {S : Type} (q : Q K) (hinv : Inv q) (hsz : q.nodes.
   rw [if_neg (by omega)]
   exact dfsLoop_eq_runPrefix q maskOf upd stop visit hv _ _ _ s hT
 
+/-- **`dfs_bv_first_k`: the library's box visitor with a callback that answers `false` at its `limit`-th call.**
+`traverse_depth_first_node_with_stack` then reports exactly the first `limit` leaves of the order in which
+`intersect_aabb` reports them and returns `false`; when fewer than `limit` leaves intersect, it reports all of them, in
+that order, and returns `true`.  (`ExitEarly` stops at once — also in the middle of a leaf node's lanes —,
+`MaybeContinue(mask)` descends into exactly the lanes `intersect_aabb` descends into.) -/
+theorem dfs_bv_first_k (q : Q K) (b : Aabb3 K) (limit : Nat) (hinv : Inv q) (hsz : q.nodes.size < MAXN) (hlim : 0 < limit)
+    (ids : List Nat) (h : intersectAabb q b = some ids) :
+    traverseDepthFirst q (bvVisit b limit) 0 ([] : List Nat) =
+      some (if ids.length < limit then (ids.reverse, true) else ((ids.take limit).reverse, false)) := by
+  by_cases hpos : 0 < q.nodes.size
+  · obtain ⟨T, hT, _⟩ := dfsTrace_root hinv hsz hpos (bvMask b) (4 * q.nodes.size + 8) (by omega)
+    rw [intersectAabb_eq_trace q b hpos, hT] at h
+    simp only [Option.map_some, Option.some.injEq] at h
+    subst h
+    unfold traverseDepthFirst
+    rw [if_neg (by omega)]
+    rw [dfsLoop_eq_runPrefix q (bvMask b) (bvUpd b limit) (bvStop b limit) (bvVisit b limit) (bvVisit_eq b limit) _ _ _ [] hT]
+    rw [runPrefix_bv q b limit T [] (by simpa using hlim)]
+    simp
+  · unfold intersectAabb at h
+    rw [if_pos (by omega)] at h
+    cases h
+    unfold traverseDepthFirst
+    rw [if_pos (by omega)]
+    simp [hlim]
+
+/-- the context variant pushes the same children (with their contexts) -/
+private theorem dfsCtxPush_fst {C : Type} (q : Q K) (nd : Node K) (mask : Vector Bool 4) (ctxs : Vector C 4) :
+    ∀ (ls : List Nat), (∀ l ∈ ls, l < 4) → ∀ (stack : List (Nat × C)),
+      (ls.foldl (fun st ii =>
+        match mask[ii]?, nd.children[ii]?, ctxs[ii]? with
+        | some true, some c, some cx => if !nd.leaf && decide (c ≤ q.nodes.size) then (c, cx) :: st else st
+        | _, _, _ => st) stack).map Prod.fst =
+      ls.foldl (fun st ii =>
+        match mask[ii]?, nd.children[ii]? with
+        | some true, some c => if !nd.leaf && decide (c ≤ q.nodes.size) then c :: st else st
+        | _, _ => st) (stack.map Prod.fst) := by
+  intro ls
+  induction ls with
+  | nil => intro _ stack; rfl
+  | cons l ls ih =>
+    intro hl stack
+    have hl4 : l < 4 := hl l (by simp)
+    simp only [List.foldl_cons]
+    rw [ih (fun x hx => hl x (by simp [hx]))]
+    congr 1
+    have hcx : ctxs[l]? = some ctxs[l] := by simp [hl4]
+    rw [hcx]
+    cases hm : mask[l]? with
+    | none => rfl
+    | some m =>
+      cases m with
+      | false => rfl
+      | true =>
+        cases hc : nd.children[l]? with
+        | none => rfl
+        | some c => by_cases hg : (!nd.leaf && decide (c ≤ q.nodes.size)) = true <;> simp [hg]
+
+/-- **`traverse_depth_first_node_with_stack_and_context` visits the same nodes in the same order as the variant without
+context**: for a context visitor whose status and state update do not look at the context, the run is the run of
+`traverse_depth_first_node_with_stack` with that visitor (same final state, same returned flag); the contexts are
+carried along with the pushed children. -/
+theorem dfs_context_same_visits {S C : Type} (q : Q K)
+    (visit : S → Node K → Option (Vector (Option Nat) 4) → S × Option (Vector Bool 4))
+    (visitC : S → Node K → Option (Vector (Option Nat) 4) → C → S × Option (Vector Bool 4) × Vector C 4)
+    (hvc : ∀ s nd data cx, ((visitC s nd data cx).1, (visitC s nd data cx).2.1) = visit s nd data) :
+    ∀ (fuel : Nat) (stack : List (Nat × C)) (s : S),
+      dfsCtxLoop q visitC fuel stack s = dfsLoop q visit fuel (stack.map Prod.fst) s := by
+  intro fuel
+  induction fuel with
+  | zero => intro stack s; cases stack <;> simp [dfsCtxLoop, dfsLoop]
+  | succ fuel ih =>
+    intro stack s
+    cases stack with
+    | nil => simp [dfsCtxLoop, dfsLoop]
+    | cons e st =>
+      obtain ⟨entry, cx⟩ := e
+      simp only [dfsCtxLoop, dfsLoop, List.map_cons]
+      cases hnd : q.nodes[entry]? with
+      | none => rfl
+      | some nd =>
+        simp only
+        have hv := hvc s nd (leafDataOf q nd) cx
+        rcases hr : visitC s nd (leafDataOf q nd) cx with ⟨s1, st1, ctxs⟩
+        rw [hr] at hv
+        simp only at hv
+        rw [← hv]
+        cases st1 with
+        | none => rfl
+        | some mask =>
+          simp only
+          rw [ih]
+          congr 1
+          exact dfsCtxPush_fst q nd mask ctxs lanes4 (by simp [lanes4]) st
+
+/-- **`leaves_exactly_once`: every live leaf is reachable from the root exactly once, no removed leaf is reachable.**
+In a state satisfying `Inv`, the depth-first collection of the leaves below the root (`collect`, the function the oracle
+evaluates on every dumped Rust state) (1) has no repetition — no leaf is reachable twice —, (2) contains only attached
+proxies — a leaf detached by `remove` is unreachable —, (3) contains every attached proxy once the fuel exceeds the
+number of nodes. -/
+theorem leaves_exactly_once (q : Q K) (hinv : Inv q) :
+    (∀ fuel, (collect q fuel 0).Nodup) ∧
+    (∀ fuel p, p ∈ collect q fuel 0 → ∃ pr : Proxy, q.proxies[p]? = some pr ∧ pr.node ≠ MAXN) ∧
+    (∀ (p : Nat) (pr : Proxy), q.proxies[p]? = some pr → pr.node ≠ MAXN → ∀ fuel, q.nodes.size ≤ fuel → p ∈ collect q fuel 0) := by
+  obtain ⟨d, hd⟩ := hinv.depth
+  have hd' : IsDepth q d := hd
+  have top : ∀ fuel, (collect q fuel 0).Nodup ∧ ∀ p ∈ collect q fuel 0, ∃ pr : Proxy, q.proxies[p]? = some pr ∧ pr.node ≠ MAXN := by
+    intro fuel
+    by_cases hpos : 0 < q.nodes.size
+    · have hlive : Live q 0 := by
+        rcases hinv.root with h0 | ⟨_, hl⟩
+        · omega
+        · exact hl
+      obtain ⟨h1, h2⟩ := collect_spec hinv hd' fuel 0 hlive hpos
+      exact ⟨h1, fun p hp => by obtain ⟨pr, a, b, _⟩ := h2 p hp; exact ⟨pr, a, b⟩⟩
+    · have : collect q fuel 0 = [] := by
+        cases fuel with
+        | zero => rfl
+        | succ f =>
+          have : q.nodes[0]? = none := Array.getElem?_eq_none (by omega)
+          simp [collect, this]
+      rw [this]; exact ⟨List.nodup_nil, by simp⟩
+  refine ⟨fun fuel => (top fuel).1, fun fuel p hp => (top fuel).2 p hp, ?_⟩
+  intro p pr hp hne fuel hf
+  obtain ⟨plive, nd, hnd, _, _⟩ := hinv.proxyLeaf p pr hp hne
+  have := depth_lt_size q hinv d hd.1 hd.2 pr.node nd hnd plive
+  exact collect_complete hinv hd' p pr hp hne fuel (by omega)
+
+/-- the corrected `refit` leaves `root_aabb` equal to the merged box of the root node -/
+theorem refit_syncs_root_aabb (q : Q K) (cur : Nat → Aabb3 K) (margin : K) (r : Q K × Nat) (h : refit q cur margin = some r) :
+    ∀ root : Node K, r.1.nodes[0]? = some root → r.1.rootAabb = mergedBox root.boxes := by
+  obtain ⟨r0, _, rfl⟩ := refit_eq q cur margin r h
+  intro root hroot
+  simp only [syncRootAabb_nodes] at hroot
+  simp only [syncRootAabb, hroot]
+
+/-- **`root_aabb` contains every live leaf**, abstract form: in a state satisfying `Inv` and `BoxInv` whose `root_aabb` is
+the merged box of the root node (what `refit` — corrected —, `clear_and_rebuild` and `rebalance` leave behind), the
+box returned by `Qbvh::root_aabb()` contains the current box of every attached leaf -/
+theorem root_aabb_contains_abs (laws : BoxLaws K) (q : Q K) (cur : Nat → Aabb3 K) (hinv : Inv q) (hbox : BoxInv q cur)
+    (hsync : ∀ root : Node K, q.nodes[0]? = some root → q.rootAabb = mergedBox root.boxes)
+    (p : Nat) (pr : Proxy) (hp : q.proxies[p]? = some pr) (hne : pr.node ≠ MAXN) :
+    boxContains q.rootAabb (cur pr.data) = true := by
+  obtain ⟨root, l, bx, hroot, hb, hcont⟩ := (pathTo_root laws hinv cur hbox p pr hp hne).top
+  rw [hsync root hroot]
+  exact laws.trans _ _ _ (laws.merged root.boxes l bx hb) hcont
+
 end structural
 
 section boxes
@@ -231,6 +379,21 @@ theorem intersectAabb_complete (q : Q K) (cur : Nat → Aabb3 K) (b : Aabb3 K) (
   refine intersectAabb_complete_abs (boxLaws_fieldNum sq) q cur b hinv hbox hsz ids h p pr hp hne ?_
   intro bx hc
   exact boxIntersects_mono2 sq bx (cur pr.data) b b hc ((boxLaws_fieldNum sq).refl b) hint
+
+/-- **`refit_root_aabb_contains`: after `refit`, `Qbvh::root_aabb()` contains every live leaf** (the clause violated on
+the pinned tree, where `refit` did not write `root_aabb`; fixes/C08-refit-root-aabb.diff).  Exact arithmetic, margin
+`≥ 0`: from any state in which every out-of-date node is flagged DIRTY and queued (`Inv`, `Tracked`, `DirtyQueued` —
+preserved by every operation, `Full`), the state returned by the corrected `refit` has a `root_aabb` containing the
+current box of every attached leaf. -/
+theorem refit_root_aabb_contains (q : Q K) (cur : Nat → Aabb3 K) (margin : K) (r : Q K × Nat) :
+    letI := fieldNum K sq
+    0 ≤ margin → Inv q → Tracked q cur → DirtyQueued q → refit q cur margin = some r →
+    ∀ (p : Nat) (pr : Proxy), r.1.proxies[p]? = some pr → pr.node ≠ MAXN →
+      boxContains r.1.rootAabb (cur pr.data) = true := by
+  letI := fieldNum K sq
+  intro hm hinv ht hdq hr p pr hp hne
+  obtain ⟨hi, hb, _, _⟩ := refit_establishes (boxLaws_fieldNum sq) q cur margin hm hinv ht hdq r hr
+  exact root_aabb_contains_abs (boxLaws_fieldNum sq) r.1 cur hi hb (refit_syncs_root_aabb q cur margin r hr) p pr hp hne
 
 end boxes
 
